@@ -7,3 +7,7 @@ func yield(string) {}
 
 // selectHook is the constant 0 (no preference) unless built with -tags verif.
 func selectHook() int { return 0 }
+
+// task bookkeeping is inert unless built with -tags verif.
+func taskEnter() {}
+func taskLeave() {}
